@@ -157,6 +157,11 @@ func c18Check(c *core.Ctx, cs c18Case) {
 	}
 	prof := filepath.Join(dir, "prof.out")
 	_ = os.Remove(prof)
+	if !cs.Append {
+		// an older, longer profile at the same path must be replaced, not partly overwritten
+		stale := "mode: count\n" + strings.Repeat("/stale/old.awk:1.1,1.9 1 7\n", 400)
+		_ = os.WriteFile(prof, []byte(stale), 0o644)
+	}
 	covArgs := []string{"-covermode", cs.Mode, "-coverprofile", "prof.out"}
 	if cs.Append {
 		covArgs = append(covArgs, "-coverappend")
